@@ -9,9 +9,10 @@ RULE = ("cases: (1) cuckoo: operation sequences (insert / contains / contains-wi
         "CuckooCache::cache<uint256, SignatureCacheHasher> of 2..40 elements, over element pools built to collide in their 8 hash locations "
         "(shared 32-bit words, elements differing only outside the hashed words' prefix, the all-zero element), comparing every answer and the "
         "full final state (table, collection flags, epoch flags, epoch counter) with the model; (2) hist: histories of 4-40 CheckInputScripts "
-        "calls on one ValidationCache (2 / 8 / 4096-element caches) over a pool of 8 transactions whose validity depends on the flags "
-        "(high-S, undefined hash type, corrupted signature, same signature under two keys, two inputs, P2WPKH with good / corrupted witness "
-        "sharing one txid), every combination of cacheSigStore / cacheFullScriptStore / deferred checks, lenient-then-strict and "
+        "calls on one ValidationCache (2 / 8 / 4096-element caches) over a pool of 13 transactions whose validity depends on the flags "
+        "(P2TR key path with a garbage signature (TAPROOT), legacy OP_CODESEPARATOR (CONST_SCRIPTCODE), OP_SUCCESS leaf / unknown leaf version / "
+        "unknown tapscript key type (the three taproot DISCOURAGE flags), high-S, undefined hash type, corrupted signature, same signature under two keys, two inputs, P2WPKH with good / corrupted witness "
+        "sharing one txid), every combination of cacheSigStore / cacheFullScriptStore / deferred checks, pairs of flag sets (F, F|b) for every single flag bit b on a transaction sensitive to b, lenient-then-strict and "
         "deferred-then-inline patterns; every verdict compared with the verdict on fresh caches. Non-trivial = at least one insert / one "
         "storing call; distinct = distinct case lines.")
 ASSUMPTIONS = ["P1: the cache keys (salted SHA-256) are injective on (witness hash, flags) resp. (sighash, pubkey, signature) and never the all-zero value",
@@ -73,8 +74,28 @@ def gen_hist(rng, tier):
     MAND = P.get("SCR_MANDATORY_SCRIPT_VERIFY_FLAGS", P2SH | DERSIG | WITNESS)
     FL = [0, P2SH, P2SH | DERSIG, P2SH | LOW_S, P2SH | STRICTENC, P2SH | STRICTENC | LOW_S | DERSIG | NULLFAIL, P2SH | WITNESS, P2SH | WITNESS | LOW_S,
           P2SH | WITNESS | STRICTENC | NULLFAIL, MAND, STD]
-    rules = ["never", str(LOW_S), str(STRICTENC), "always", "always", "always", "never", str(WITNESS)]
-    invalid_under = {1: LOW_S, 2: STRICTENC, 7: WITNESS}
+    CONST, TAPROOT, D_TAPVER, D_OPSUCCESS, D_PUBKEYTYPE = (bit("CONST_SCRIPTCODE", 16), bit("TAPROOT", 17), bit("DISCOURAGE_UPGRADABLE_TAPROOT_VERSION", 18),
+                                                          bit("DISCOURAGE_OP_SUCCESS", 19), bit("DISCOURAGE_UPGRADABLE_PUBKEYTYPE", 20))
+    DUWP, CLEANSTACK = bit("DISCOURAGE_UPGRADABLE_WITNESS_PROGRAM", 12), bit("CLEANSTACK", 8)
+    NBITS = P.get("SCR_FLAG_END_MARKER", 21)
+    W = P2SH | WITNESS
+    # invariants of every generated flag set (they make the rules below exact): WITNESS => P2SH, CLEANSTACK => P2SH|WITNESS,
+    # TAPROOT => WITNESS, DISCOURAGE_UPGRADABLE_WITNESS_PROGRAM only together with TAPROOT
+    FL += [CONST, P2SH | CONST, W | CONST, W | TAPROOT, W | TAPROOT | CONST, W | TAPROOT | D_TAPVER, W | TAPROOT | D_OPSUCCESS, W | TAPROOT | D_PUBKEYTYPE,
+           W | D_TAPVER | D_OPSUCCESS | D_PUBKEYTYPE, MAND & ~TAPROOT, (STD & ~TAPROOT) & ~DUWP, STD & ~CONST, STD & ~D_OPSUCCESS]
+    rules = ["never", str(LOW_S), str(STRICTENC), "always", "always", "always", "never", str(WITNESS),
+             str(TAPROOT), str(CONST), "all:%d" % (TAPROOT | D_OPSUCCESS), "all:%d" % (TAPROOT | D_TAPVER), "all:%d" % (TAPROOT | D_PUBKEYTYPE)]
+    invalid_under = {1: LOW_S, 2: STRICTENC, 7: WITNESS, 8: TAPROOT, 9: CONST}
+    # (transaction, the single bit its verdict depends on, bits that must be present for the bit to matter)
+    sensitive = [(1, LOW_S, 0), (2, STRICTENC, 0), (7, WITNESS, P2SH), (8, TAPROOT, W), (9, CONST, 0),
+                 (10, D_OPSUCCESS, W | TAPROOT), (11, D_TAPVER, W | TAPROOT), (12, D_PUBKEYTYPE, W | TAPROOT)]
+
+    def close(f):
+        if f & TAPROOT: f |= W
+        if f & CLEANSTACK: f |= W
+        if f & WITNESS: f |= P2SH
+        if (f & DUWP) and not (f & TAPROOT): f &= ~DUWP
+        return f
     head = lambda n: "hist %d %d %d %s ops" % (n, n, len(rules), " ".join(rules))
     cases = []
     scale = 1 if tier == "quick" else 15
@@ -86,27 +107,44 @@ def gen_hist(rng, tier):
         ops = []
         for _ in range(rng.choice([4, 10, 20, 40])):
             r = rng.random()
-            if r < 0.25:
+            if r < 0.2:
+                # (F, F|b) differing in exactly the one bit the transaction is sensitive to: cached under F, then validated under F|b
+                t, b, need = rng.choice(sensitive)
+                f = close((rng.choice(FL) | need) & ~b)
+                if t in (8, 10, 11, 12) and b != TAPROOT: f = close(f | TAPROOT)
+                if f & b: f = need
+                ops.append(op(t, f, rng.randrange(2), 1, 0))
+                ops.append(op(t, f | b, rng.randrange(2), rng.randrange(2), rng.randrange(2)))
+            elif r < 0.3:
+                # every single flag bit: (F, F|b) on a random transaction
+                b = 1 << rng.randrange(NBITS)
+                if b != DUWP:
+                    f = rng.choice(FL) & ~b
+                    f = close(f) & ~b if b not in (P2SH, WITNESS) else f & ~W & ~TAPROOT & ~CLEANSTACK
+                    t = rng.randrange(len(rules))
+                    ops.append(op(t, f, rng.randrange(2), 1, 0))
+                    ops.append(op(t, close(f | b), rng.randrange(2), rng.randrange(2), rng.randrange(2)))
+            elif r < 0.4:
                 # lenient then strict, same transaction
-                t = rng.choice([1, 2, 7, 1, 2, 7, 0, 6])
+                t = rng.choice([1, 2, 7, 8, 9, 1, 2, 7, 0, 6])
                 m = invalid_under.get(t, LOW_S)
                 lenient = rng.choice([f for f in FL if not f & m])
                 strict = rng.choice([f for f in FL if f & m])
                 ops.append(op(t, lenient, rng.randrange(2), 1, 0))
                 ops.append(op(t, strict, rng.randrange(2), rng.randrange(2), rng.randrange(2)))
-            elif r < 0.4:
+            elif r < 0.5:
                 # an invalid transaction with deferred checks and full-store requested, then inline
-                t = rng.choice([3, 4, 5, 1, 7])
+                t = rng.choice([3, 4, 5, 1, 7, 8, 9])
                 m = invalid_under.get(t, 0)
                 fl = rng.choice([f for f in FL if (f & m) or not m])
                 ops.append(op(t, fl, rng.randrange(2), 1, 1))
                 ops.append(op(t, fl, rng.randrange(2), rng.randrange(2), 0))
-            elif r < 0.5:
+            elif r < 0.58:
                 # same txid, different witness
                 fl = rng.choice([f for f in FL if f & WITNESS])
                 ops.append(op(6, fl, 1, 1, 0)); ops.append(op(7, fl, rng.randrange(2), rng.randrange(2), rng.randrange(2)))
             else:
-                ops.append(op(rng.randrange(8), rng.choice(FL), rng.randrange(2), rng.randrange(2), 1 if rng.random() < 0.25 else 0))
+                ops.append(op(rng.randrange(len(rules)), rng.choice(FL), rng.randrange(2), rng.randrange(2), 1 if rng.random() < 0.25 else 0))
         cases.append(head(n) + " " + " ".join(ops))
     return cases
 
